@@ -170,7 +170,7 @@ func runC18(p *P, r *R) {
 	r.count("R18.2", "send loops", nLoop, 1)
 
 	c18WriteLoop(p, r)
-	c18Window(p, r)
+	c18Window(p, r, "R18.4")
 	// the window handed to the callback is only valid until commitRead: nothing may retain it
 	noEscapeOfEventBuffer(p, r, "R18.6")
 	c18Variants(p, r)
@@ -309,7 +309,7 @@ func findIndexAddrArg(v ssa.Value) *ssa.IndexAddr {
 }
 
 // R18.4
-func c18Window(p *P, r *R) {
+func c18Window(p *P, r *R, rule string) {
 	const rb, so, eo = "connEventHandler.readBuffer", "connEventHandler.readStartOff", "connEventHandler.readEndOff"
 	nSlice, nStore := 0, 0
 	for _, f := range p.fnList {
@@ -338,11 +338,11 @@ func c18Window(p *P, r *R) {
 							ok = true
 						}
 					}
-					r.ob("R18.4", fn+": the receive buffer is re-sliced (shrunk) only when start==end", p.ipos(in), ok && x.Low == nil, true, "shrinking while bytes are pending drops them")
+					r.ob(rule, fn+": the receive buffer is re-sliced (shrunk) only when start==end", p.ipos(in), ok && x.Low == nil, true, "shrinking while bytes are pending drops them")
 					return
 				}
 				win := x.Low != nil && x.High != nil && isLoadOf(x.Low, so) && isLoadOf(x.High, eo)
-				r.ob("R18.4", fn+": a window of the receive buffer that leaves the handler is exactly [readStartOff:readEndOff]", p.ipos(in), win, true,
+				r.ob(rule, fn+": a window of the receive buffer that leaves the handler is exactly [readStartOff:readEndOff]", p.ipos(in), win, true,
 					"handing out [0:end] duplicates bytes after a partial commit; [start:len] invents bytes")
 				// the loads feeding the window must not follow a store to the same offset in this function
 				for _, bound := range []struct {
@@ -361,7 +361,7 @@ func c18Window(p *P, r *R) {
 							}
 						}
 					})
-					r.ob("R18.4", fn+": the window bound "+bound.word+" is read before any reset of it", p.ipos(ld), !stale, true,
+					r.ob(rule, fn+": the window bound "+bound.word+" is read before any reset of it", p.ipos(ld), !stale, true,
 						"a window computed after the offset was reset to 0 re-delivers committed bytes")
 				}
 			case *ssa.Store:
@@ -376,7 +376,7 @@ func c18Window(p *P, r *R) {
 						_, isParam := b.Y.(*ssa.Parameter)
 						ok, why = isParam, "advance by the committed byte count"
 					}
-					r.ob("R18.4", fn+": store to readStartOff is a commit (+n) or a justified reset", p.ipos(in), ok, true, "%s", why)
+					r.ob(rule, fn+": store to readStartOff is a commit (+n) or a justified reset", p.ipos(in), ok, true, "%s", why)
 				case eo:
 					nStore++
 					ok, why := false, ""
@@ -393,7 +393,7 @@ func c18Window(p *P, r *R) {
 							ok, why = true, "pending bytes carried into the grown buffer"
 						}
 					}
-					r.ob("R18.4", fn+": store to readEndOff is +read-result, the grow copy count, or a justified reset", p.ipos(in), ok, true, "%s", why)
+					r.ob(rule, fn+": store to readEndOff is +read-result, the grow copy count, or a justified reset", p.ipos(in), ok, true, "%s", why)
 				case rb:
 					nStore++
 					// grown buffer: must be the destination of the copy of the pending window
@@ -416,18 +416,18 @@ func c18Window(p *P, r *R) {
 					if _, isAlloc := x.Addr.(*ssa.FieldAddr).X.(*ssa.Alloc); isAlloc {
 						ok = true // constructor
 					}
-					r.ob("R18.4", fn+": a new receive buffer is installed only after the pending window was copied into it", p.ipos(in), ok, true, "")
+					r.ob(rule, fn+": a new receive buffer is installed only after the pending window was copied into it", p.ipos(in), ok, true, "")
 				}
 			case *ssa.IndexAddr:
 				if isLoadOf(x.X, rb) {
 					nSlice++
-					r.ob("R18.4", fn+": the read syscall appends at readBuffer[readEndOff]", p.ipos(in), isLoadOf(x.Index, eo), true, "")
+					r.ob(rule, fn+": the read syscall appends at readBuffer[readEndOff]", p.ipos(in), isLoadOf(x.Index, eo), true, "")
 				}
 			}
 		})
 	}
-	r.count("R18.4", "slices/indexes of the receive buffer", nSlice, 4)
-	r.count("R18.4", "stores to the receive window state", nStore, 6)
+	r.count(rule, "slices/indexes of the receive buffer", nSlice, 4)
+	r.count(rule, "stores to the receive window state", nStore, 6)
 	// read length = len(readBuffer) - readEndOff
 	if f := p.fn("(*connEventHandler).onReadReady"); f != nil {
 		allInstrs(f, func(in ssa.Instruction) {
@@ -443,13 +443,13 @@ func c18Window(p *P, r *R) {
 					}
 				}
 			}
-			r.ob("R18.4", "onReadReady: the read syscall is limited to len(readBuffer)-readEndOff", p.ipos(in), okLen, true, "")
+			r.ob(rule, "onReadReady: the read syscall is limited to len(readBuffer)-readEndOff", p.ipos(in), okLen, true, "")
 		})
 		// the grow step runs before each read
-		r.ob("R18.4", "onReadReady: the buffer is grown (if full) before every read", p.pos(f.Pos()),
+		r.ob(rule, "onReadReady: the buffer is grown (if full) before every read", p.pos(f.Pos()),
 			len(findInstrs(f, p.mCall("(*connEventHandler).maybeExpandReadBuffer"))) > 0, false, "")
 	} else {
-		r.fail("R18.4", "anchor (*connEventHandler).onReadReady", "", "function not found")
+		r.fail(rule, "anchor (*connEventHandler).onReadReady", "", "function not found")
 	}
 }
 
